@@ -21,8 +21,12 @@ CONSTANTS
     MaxDepth,     \* bound on Len(hist)
     Emit          \* print histories?
 
-VARIABLES app, g, resp, last, hist, app2, ins
-vars == <<app, g, resp, last, hist, app2, ins>>
+VARIABLES app, g, resp, last, hist, app2, ins, tags
+vars == <<app, g, resp, last, hist, app2, ins, tags>>
+(* tags = the classes <<kind, defect>> of refused-by-design ops taken so far. It is part of every VIEW:
+   such ops are (nearly) no-ops of the SPEC, so without it a history containing one is shadowed by an
+   equivalent history without it, and an implementation in which the refused op has an effect would
+   never be driven past it. *)
 
 BaseTx(k, s) == [k |-> k, s |-> s, n |-> 0, bad |-> "", cfg |-> NoCfg, b |-> 0, eon |-> 0,
                  ok |-> FALSE, key |-> NoKey, to |-> <<>>, gm |-> 0]
@@ -113,6 +117,8 @@ Results(s, o) ==
       [] o.op = "end" -> LET x == EndBlock(s, s.height + 1) IN
                          {[st |-> Commit(x.st), r |-> R("end", tx, 0, x.events, x.updates)]}
 
+TagsNext(o) == IF o.op = "tx" /\ Malformed(o.tx) THEN tags \cup {<<o.tx.k, o.tx.bad>>} ELSE tags
+
 Init ==
     /\ app = InitState /\ app2 = InitState
     /\ g = GhostInit
@@ -120,6 +126,7 @@ Init ==
     /\ last = 0
     /\ hist = <<>>
     /\ ins = NoIns
+    /\ tags = {}
 
 Step(i) ==
     LET o == Alphabet[i] IN
@@ -131,6 +138,7 @@ Step(i) ==
          /\ g' = GhostNext(g, app, x.r.kind, x.r.tx, x.r, x.st)
     /\ last' = i
     /\ hist' = Append(hist, i)
+    /\ tags' = TagsNext(o)
     /\ UNCHANGED <<app2, ins>>
 
 Next == \E i \in DOMAIN Alphabet : Step(i)
@@ -145,8 +153,8 @@ Deterministic == \A i \in DOMAIN Alphabet : Enabled(app, Alphabet[i]) => Cardina
 
 EmitInv == (~Emit) \/ PrintT(<<"B", hist>>)
 EmitEnd == (~Emit) \/ Len(hist) # MaxDepth \/ PrintT(<<"B", hist>>)
-GenView == <<app, last>>
-PropView == <<app, g, last>>
+GenView == <<app, last, tags>>
+PropView == <<app, g, last, tags>>
 
 ----------------------------------------------------------------------------
 (* C09: two replicas fed the same ops, each resolving its own choices *)
@@ -161,11 +169,12 @@ Step2(i) ==
     /\ g' = g /\ ins' = ins
     /\ last' = i
     /\ hist' = Append(hist, i)
+    /\ tags' = TagsNext(o)
 
 Next2 == \E i \in DOMAIN Alphabet : Step2(i)
 Spec2 == Init /\ [][Next2]_vars
 C09_Agree == app = app2 /\ resp.code # -1
-View2 == <<app, app2, last>>
+View2 == <<app, app2, last, tags>>
 
 ----------------------------------------------------------------------------
 (* C10 non-interference product: run B = run A with ONE refused transaction x inserted.
@@ -191,7 +200,7 @@ Insert(i) ==
          /\ ins' = y.r.tx
          /\ resp' = [y.r EXCEPT !.kind = "ins"]
     /\ last' = i /\ hist' = Append(hist, i)
-    /\ UNCHANGED <<app, g>>
+    /\ UNCHANGED <<app, g, tags>>
 
 StepNI(i) ==
     LET o == Alphabet[i] IN
@@ -202,7 +211,7 @@ StepNI(i) ==
          /\ resp' = [x.r EXCEPT !.code = IF (o.tx.s = ins.s /\ ins.s # NoAddr)
                                              \/ [x.r EXCEPT !.tx = y.r.tx] = y.r THEN x.r.code ELSE -1]
     /\ last' = i /\ hist' = Append(hist, i)
-    /\ UNCHANGED <<g, ins>>
+    /\ UNCHANGED <<g, ins, tags>>
 
 NextNI == \E i \in DOMAIN Alphabet : StepNI(i) \/ Insert(i)
 SpecNI == InitNI /\ [][NextNI]_varsNI
